@@ -61,8 +61,11 @@ Fixpoint last_rversion (script : list vreply) : option N :=
 (** the property itself, evaluated on the observed behaviour only *)
 Definition property_holds (c : c12case) : bool :=
   match c with
-  | CHandle _ _ isr _ _ _ _ => isr                              (* a Tversion always gets an Rversion *)
-  | CWire _ _ rt _ _ => rt =? p9_msgRversion
+  (* C12 fixes the reply as a function of the request (proved: C12_unknown, C12_ok), so the
+     property predicate for a Tversion is that function itself *)
+  | CHandle _ _ isr _ _ _ _ => isr && agrees c
+  | CWire _ _ rt _ _ => (rt =? p9_msgRversion) && agrees c
+  | CParse _ _ _ _ | CVstr _ _ => agrees c
   | CClient req script result _ later =>
       match result, last_rversion script with
       | NCOk _ m _, Some announced =>
